@@ -15,6 +15,26 @@ CHECKS = {
    technique='bounded exhaustive enumeration of NL models (operator shapes to depth 2, sharing/canonicalisation/unary-encoding/bound-pattern families) x deviation-bounded closure of acceptance configurations x conversion-option deviations on the real reader+flattener+converter; every grid point of the original variables judged by an NL evaluator against an exhaustive auxiliary-variable search (integer enumeration + Fourier-Motzkin) over the delivered model',
    text='Each generated model is read by the real NL reader, flattened and converted for every acceptance configuration within the deviation bound (relevant types = types actually stored in a keeper; both the API route and the acc:* option route) and for every single conversion-option deviation; for every point of the full grid of original variables NL feasibility must equal existence of auxiliary values for the delivered model, and the best delivered objective must equal the NL objective; refusals must carry a diagnostic and deliver nothing.',
    note='Models are bounded (<=3 variables, grid step 0.5, depth<=2 shapes); acceptance configurations are explored up to 1 (quick) / 2 (thorough) deviations from "only linear rows" and 1 deviation from "everything accepted", API capability flags as presets; PL-approximated runs are outside the exact fragment and skipped; the delivered model is serialised by the library WriteJSON overloads; oracle = ref/aux_search.h cross-checked against lib/delivered.py on every run.'),
+ 'C04': dict(level='model_checking', engine='flat', ref='3/C04',
+   technique='exhaustive exploration of pre/postsolve call histories (depth<=2 quick, <=3 thorough) and of every basis/IIS status vector over the matched rows and slacks on the real converter + value presolver, judged by structural row matching and by a fresh-instance differential',
+   text='For every model (subsets of linear rows of each kind interleaved with nonlinear/logical blocks) and acceptance configuration the real ValuePresolver is driven with every transfer of the alphabet on a fresh instance (values must land on / come from the structurally matched items with the documented slack mapping) and then with every bounded history of transfers whose last result must equal the fresh-instance result (history independence).',
+   note='Linear NL constraints are matched to delivered rows by coefficient vector and rhs (range -> equality+slack); rows are assumed to reach the solver in AddConstraint call order per group; models <=3 linear rows; priorities and sensitivity suffixes not explored.'),
+ 'C06': dict(level='exploration', engine='flat', ref='3/C06',
+   technique='bounded exhaustive enumeration of functional constraint templates x argument-domain alphabet x parameter alphabet x preprocessing options on the real flattener/converter with an all-accepting API; result bounds/type of every delivered functional constraint checked against the true function on gridded argument domains',
+   text='Every functional template (78 unary incl. parameters, 17 binary, 9 ternary) over a 14-domain alphabet (pairs/triples over reduced alphabets) and 4 preprocessing settings is converted; for every delivered functional constraint the true function value at every point of the gridded argument domains must lie in the result variable bounds and be integral for integer results; on finite domains the delivered model must also be point-wise equivalent (constant/alias replacement).',
+   note='Containment tolerance 1e-9 relative; infinite ends represented by +-1e3/+-1e9; continuous domains are gridded (endpoints, near-endpoints, 0, +-1, midpoints), not all reals; expressions sit in an objective so no root constraint narrows them.'),
+ 'C07': dict(level='exploration', engine='flat', ref='3/C07',
+   technique='bounded exhaustive enumeration of models x candidate points (all grid points, bound/integrality/objective perturbations) x check modes x fail option on the real SolutionChecker (in-process CheckSolution) against the reference NL evaluator',
+   text='For every model of the families and every candidate point the auxiliary variables are set to the true values of their defining expressions (all-native delivery) and CheckSolution is called under 12 mode settings and sol:chk:fail; in modes checking variables and constraints the verdict must equal the reference verdict exactly (iff), in partial modes no spurious report and all bound/objective reports are demanded; fail must raise code 150 exactly in the violating cases.',
+   note='Only the all-native delivery is used (auxiliaries functionally determined); tolerance ladder limited to 1e-8/1e-7 (inside) and 0.3/0.5 (outside) on the linear family; mode bits 4/8 only inside mode 1023; the driver-level solve_result 150 path is covered by C09.'),
+ 'C11': dict(level='model_checking', engine='opts', ref='3/C11',
+   technique='bounded exhaustive exploration of option-assignment histories over three sources against a reference map (vx::Explorer), exhaustive short byte strings under ASan/UBSan with guard-page and fork isolation, exhaustive switch sequences against a reference table',
+   text='Every history of <=2 assignments over a 336-item alphabet (name forms x separators x typed values, queries, flag, flag=value, unknown names) and, in thorough, every history of 3 assignments over a 59-item alphabet, distributed over mp_options / <solver>_options / argv, is parsed by the real BasicSolver and its read-back state compared with a reference fold; every byte string of length <=5 (<=6) over 10 bytes, alone and behind n=, s=, s=\', d=, plus long tokens, is parsed via ParseOptionString and argv with a guard page behind the NUL and as exact-size heap copies under ASan+UBSan; every argv sequence of <=3 over 13 switch tokens goes through SolverAppOptionParser::Parse.',
+   note='Fixed option table (one solver); depth-3 histories use a thinned alphabet; out-of-range numerics judged error-or-exact; wildcard key case not demanded; std::logic_error for an empty name counted as a reported error.'),
+ 'C18': dict(level='exploration', engine='expr', ref='3/C18',
+   technique='bounded exhaustive pairwise comparison: every tree of a finite family (all 71 kinds x all legal arities <=3 over a 13-leaf alphabet, depth 2 over kind-class representatives, all single-point mutations), each built in two ExprFactory instances, all N(N+1)/2 pairs judged by a structural equality on the generator descriptions',
+   text='Every unordered pair of 21,168 (quick) / 65,950 (thorough) factory-built trees is run through mp::Equal in both directions and std::hash<mp::Expr> on the real code under ASan+UBSan. Equal must equal an independent structural equality on the tree descriptions (hence an equivalence), be symmetric, imply equal hashes, and never crash. Kinds without a comparator (root STRING, IFSYM, NUMBEROF_SYM) may only throw mp::UnsupportedError.',
+   note='Finite family only: arity <=3, depth <=2 (3 via mutation), small constant/index/string alphabets, no NaN, no null children. Function identity is object identity. Hash quality is not checked.'),
 }
 NOT_YET = {}
 def main():
